@@ -101,6 +101,10 @@ func c05Ops(spec c05PoolSpec) []c05Op {
 	// the opposite direction (input denom sorts AFTER the output denom)
 	ops = append(ops, c05Op{Name: "swap_small_rev_by_other", Kind: "swap", Arg: "small", Idx: 1}, c05Op{Name: "swap_large_rev_by_other", Kind: "swap", Arg: "large", Idx: 1})
 	ops = append(ops, c05Op{Name: "founder_exits_all_pool_shares", Kind: "other_exit_all"})
+	// the price feeder's routine message that refreshes the pool's external-liquidity ratios: it rewrites the
+	// pool record, so it must leave reserves and shares exactly as they are — wherever it lands among the
+	// joins, exits and swaps of the block
+	ops = append(ops, c05Op{Name: "feeder_refreshes_external_liquidity", Kind: "ext_feed"})
 	return ops
 }
 
@@ -414,6 +418,31 @@ func (r *c05Run) apply(ctx sdk.Context, s *c05State, op c05Op, path []string) {
 			write()
 		}
 		s.noSwap, s.onlyAllAsset = false, false
+		return
+	case "ext_feed":
+		assetName := func(d string) string {
+			switch d {
+			case "uatom":
+				return "ATOM"
+			case "uusdc":
+				return "USDC"
+			case "uelys":
+				return "ELYS"
+			}
+			return d
+		}
+		m := &ammtypes.MsgFeedMultipleExternalLiquidity{Sender: w.A("feeder").Addr.String(), Liquidity: []ammtypes.ExternalLiquidity{{PoolId: r.poolId, AmountDepthInfo: []ammtypes.AssetAmountDepth{
+			{Asset: assetName(pre.denoms[0]), Amount: sdkmath.LegacyNewDecFromInt(pre.res[0]).MulInt64(10), Depth: sdkmath.LegacyMustNewDecFromStr("0.1")},
+			{Asset: assetName(pre.denoms[1]), Amount: sdkmath.LegacyNewDecFromInt(pre.res[1]).MulInt64(10), Depth: sdkmath.LegacyMustNewDecFromStr("0.1")}}}}}
+		if e := r.deliver(ctx, m); e != nil {
+			r.st.Clauses["ext_feed_refused"]++
+			return
+		}
+		r.st.Clauses["ext_feed"]++
+		post := r.observe(ctx)
+		if !post.res[0].Equal(pre.res[0]) || !post.res[1].Equal(pre.res[1]) || !post.shares.Equal(pre.shares) {
+			r.find(Finding{Clause: "external_liquidity_feed_changed_the_pool_book", Culprit: "ext_feed", Disc: "pool=" + map[bool]string{true: "oracle", false: "cpmm"}[r.spec.Oracle], Detail: fmt.Sprintf("MsgFeedMultipleExternalLiquidity moved the pool's book: reserves %v -> %v, shares %s -> %s", pre.res, post.res, pre.shares, post.shares)}, path)
+		}
 		return
 	case "other_exit_all":
 		// the founder holds the initial supply: exiting ALL shares of the pool must be refused whenever
